@@ -189,7 +189,7 @@ def c14_case(r):
         p = rand_payload(r, r.randint(1, 40), bytes(range(256)))
         return from_encoder(r, "unescape", p)
     if k == 4:  # unescape with malformed escapes kept literally
-        arg = b"".join(r.choice([b"%41", b"%", b"%4", b"%zz", b"a", b"%2f", b"%00", b"%FF", b"+", b" "]) for _ in range(r.randint(1, 10)))
+        arg = b"".join(r.choice([b"%41", b"%", b"%4", b"%zz", b"a", b"%2f", b"%00", b"%FF", b"+", b" ", b"%u0041", b"%25u2713", b"u0041", b"%25"]) for _ in range(r.randint(1, 10)))
         from vf.refs import neturl
         plain = neturl.decode(arg)
         if not plain:
